@@ -41,11 +41,11 @@ func (r recorderHooks) BeforeEpochStart(_ sdk.Context, id string, n int64) {
 
 // epochIdent is one generated identifier (times in nanoseconds relative to genesis time).
 type epochIdent struct {
-	ID       string
-	StartNs  int64 // start time - genesis time; ignored when ZeroStart
+	ID        string
+	StartNs   int64 // start time - genesis time; ignored when ZeroStart
 	ZeroStart bool
-	DurNs    int64
-	MidCount int64 // > 0: already counting at genesis, current epoch = MidCount
+	DurNs     int64
+	MidCount  int64 // > 0: already counting at genesis, current epoch = MidCount
 }
 
 type epochCase struct {
